@@ -907,8 +907,83 @@ Section Sim.
       unfold st. mstep_go. mstep_go. apply mruno_done'. unfold env_push. f_equal. lia.
   Qed.
 
+  (** the code ranges of the arms *)
+  Fixpoint earm_sizes (arms : earms) : list N :=
+    match arms with
+    | EANil => []
+    | EACons pt e r => (len (d_arm_head pt) + sz_expr e + 2) :: earm_sizes r
+    end.
+  Fixpoint sarm_sizes (arms : sarms) : list N :=
+    match arms with
+    | SANil => []
+    | SACons pt ss r => (len (d_arm_head pt) + sz_stmts ss + 2) :: sarm_sizes r
+    end.
+
+  Lemma first_match_lt pats v : forall k, first_match pats v = Some (Some k) -> (k < List.length pats)%nat.
+  Proof.
+    induction pats as [|pt r IH]; intros k H; cbn [first_match] in H; [discriminate|].
+    destruct (match pt with PDefault => Some true | PVals ps => any_match p v ps end) as [[|]|]; try discriminate.
+    - inversion H. cbn. lia.
+    - destruct (first_match r v) as [[k'|]|]; cbn in H; try discriminate. inversion H. specialize (IH k' eq_refl). cbn. lia.
+  Qed.
+
+  Lemma earm_bounds arms : forall pc0 k, (k < List.length (earms_patterns arms))%nat ->
+    pc0 <= nth k (earm_addrs p is_debug arms pc0) 0
+    /\ nth k (earm_addrs p is_debug arms pc0) 0 + nth k (earm_sizes arms) 0 <= pc0 + sz_earms arms.
+  Proof.
+    induction arms as [|pt e r IH]; intros pc0 k Hk.
+    - cbn in Hk. lia.
+    - change (earms_patterns (EACons pt e r)) with (pt :: earms_patterns r) in Hk. cbn [List.length] in Hk.
+      rewrite sz_earms_EACons. cbn [earm_addrs earm_sizes].
+      destruct k as [|k]; cbn [nth]; [lia|].
+      destruct (IH (pc0 + len (d_arm_head pt) + sz_expr e + 2) k ltac:(lia)). lia.
+  Qed.
+  Lemma sarm_bounds arms : forall pc0 k, (k < List.length (sarms_patterns arms))%nat ->
+    pc0 <= nth k (sarm_addrs p is_debug arms pc0) 0
+    /\ nth k (sarm_addrs p is_debug arms pc0) 0 + nth k (sarm_sizes arms) 0 <= pc0 + sz_sarms arms.
+  Proof.
+    induction arms as [|pt ss r IH]; intros pc0 k Hk.
+    - cbn in Hk. lia.
+    - change (sarms_patterns (SACons pt ss r)) with (pt :: sarms_patterns r) in Hk. cbn [List.length] in Hk.
+      rewrite sz_sarms_SACons. cbn [sarm_addrs sarm_sizes].
+      destruct k as [|k]; cbn [nth]; [lia|].
+      destruct (IH (pc0 + len (d_arm_head pt) + sz_stmts ss + 2) k ltac:(lia)). lia.
+  Qed.
+  (** distinct arms occupy disjoint ranges *)
+  Lemma earm_disjoint arms : forall pc0 j k, j <> k ->
+    (j < List.length (earms_patterns arms))%nat -> (k < List.length (earms_patterns arms))%nat ->
+    nth j (earm_addrs p is_debug arms pc0) 0 + nth j (earm_sizes arms) 0 <= nth k (earm_addrs p is_debug arms pc0) 0
+    \/ nth k (earm_addrs p is_debug arms pc0) 0 + nth k (earm_sizes arms) 0 <= nth j (earm_addrs p is_debug arms pc0) 0.
+  Proof.
+    induction arms as [|pt e r IH]; intros pc0 j k Hjk Hj Hk.
+    - cbn in Hj. lia.
+    - change (earms_patterns (EACons pt e r)) with (pt :: earms_patterns r) in Hj, Hk. cbn [List.length] in Hj, Hk.
+      cbn [earm_addrs earm_sizes].
+      destruct j as [|j], k as [|k]; cbn [nth]; try congruence.
+      + left. destruct (earm_bounds r (pc0 + len (d_arm_head pt) + sz_expr e + 2) k ltac:(lia)). lia.
+      + right. destruct (earm_bounds r (pc0 + len (d_arm_head pt) + sz_expr e + 2) j ltac:(lia)). lia.
+      + apply IH; try lia.
+  Qed.
+  Lemma sarm_disjoint arms : forall pc0 j k, j <> k ->
+    (j < List.length (sarms_patterns arms))%nat -> (k < List.length (sarms_patterns arms))%nat ->
+    nth j (sarm_addrs p is_debug arms pc0) 0 + nth j (sarm_sizes arms) 0 <= nth k (sarm_addrs p is_debug arms pc0) 0
+    \/ nth k (sarm_addrs p is_debug arms pc0) 0 + nth k (sarm_sizes arms) 0 <= nth j (sarm_addrs p is_debug arms pc0) 0.
+  Proof.
+    induction arms as [|pt ss r IH]; intros pc0 j k Hjk Hj Hk.
+    - cbn in Hj. lia.
+    - change (sarms_patterns (SACons pt ss r)) with (pt :: sarms_patterns r) in Hj, Hk. cbn [List.length] in Hj, Hk.
+      cbn [sarm_addrs sarm_sizes].
+      destruct j as [|j], k as [|k]; cbn [nth]; try congruence.
+      + left. destruct (sarm_bounds r (pc0 + len (d_arm_head pt) + sz_stmts ss + 2) k ltac:(lia)). lia.
+      + right. destruct (sarm_bounds r (pc0 + len (d_arm_head pt) + sz_stmts ss + 2) j ltac:(lia)). lia.
+      + apply IH; try lia.
+  Qed.
+
   Definition P_earms (arms : earms) : Prop := forall lo hi en sg pc0 endl v w k,
-    at_pc m pc0 (d_earms pc0 endl arms) -> lo <= pc0 -> pc0 + sz_earms arms <= hi ->
+    at_pc m pc0 (d_earms pc0 endl arms) ->
+    (* the selected arm runs inside its own range *)
+    lo <= nth k (earm_addrs p is_debug arms pc0) 0 ->
+    nth k (earm_addrs p is_debug arms pc0) 0 + nth k (earm_sizes arms) 0 <= hi ->
     first_match (earms_patterns arms) v = Some (Some k) ->
     sim_out (Qr lo hi) (st en (v :: sg) (nth k (earm_addrs p is_debug arms pc0) 0) w) (eval_earms en w v arms)
             (fun r w' => st en (r :: sg) endl w').
@@ -921,16 +996,16 @@ Section Sim.
     intros IHe IHarms lo hi en sg pc0 endl v w k Hat Hlo Hhi Hk.
     rewrite eval_earms_EACons. start_case Hat.
     change (earms_patterns (EACons pt e arms)) with (pt :: earms_patterns arms) in Hk. cbn [first_match] in Hk.
-    cbn [earm_addrs].
+    cbn [earm_addrs earm_sizes] in *.
     destruct (match pt with PDefault => Some true | PVals ps => any_match p v ps end) as [[|]|]; [| |exact I].
-    - inversion Hk; subst k. cbn [nth].
+    - inversion Hk; subst k. cbn [nth] in *.
       destruct (arm_env G en v pt) as [en'|] eqn:Ea; [|exact I].
       destruct (arm_head_sim pt lo hi en sg pc0 w v en' Hat0 Hlo ltac:(lia) Ea) as [Hh [b Hb]]. subst en'.
       eapply sim_out_trans; [exact Hh|]. unfold st.
       eapply sim_post; [use_IH IHe sg|]. intros r w2 _. unfold st.
       vstep. vjump. vdone.
     - destruct (first_match (earms_patterns arms) v) as [[k'|]|] eqn:Ef; cbn [option_map] in Hk; try discriminate.
-      inversion Hk; subst k. cbn [nth].
+      inversion Hk; subst k. cbn [nth] in *.
       eapply (IHarms lo hi en sg); eauto; try lia.
   Qed.
 
@@ -944,7 +1019,8 @@ Section Sim.
     rewrite len_d_patterns in Hp. specialize (Hp ltac:(lia)).
     destruct (first_match pats v) as [[k|]|] eqn:Ef.
     - eapply sim_out_trans; [exact Hp|].
-      eapply sim_out_fin; [|eapply (IHarms lo hi en sg base_pc (base_pc + sz_earms arms) v w1 k); eauto; try lia].
+      destruct (earm_bounds arms base_pc k (first_match_lt _ _ _ Ef)) as [Hb1 Hb2].
+      eapply sim_out_fin; [|eapply (IHarms lo hi en sg base_pc (base_pc + sz_earms arms) v w1 k); eauto; try (subst base_pc; lia)].
       + intros r w'. unfold st. f_equal. subst base_pc. lia.
       + rewrite len_d_patterns in Hat. exact Hat.
     - (* no pattern matches: the reference semantics has no rule *)
@@ -969,7 +1045,9 @@ Section Sim.
   Qed.
 
   Definition P_sarms (arms : sarms) : Prop := forall lo hi en sg pc0 endl v w k,
-    at_pc m pc0 (d_sarms pc0 endl arms) -> lo <= pc0 -> pc0 + sz_sarms arms <= hi ->
+    at_pc m pc0 (d_sarms pc0 endl arms) ->
+    lo <= nth k (sarm_addrs p is_debug arms pc0) 0 ->
+    nth k (sarm_addrs p is_debug arms pc0) 0 + nth k (sarm_sizes arms) 0 <= hi ->
     first_match (sarms_patterns arms) v = Some (Some k) ->
     sim_out (Qr lo hi) (st en (v :: sg) (nth k (sarm_addrs p is_debug arms pc0) 0) w) (eval_sarms en w v arms)
             (fun en' w' => st en' sg endl w').
@@ -982,9 +1060,9 @@ Section Sim.
     intros IHss IHarms lo hi en sg pc0 endl v w k Hat Hlo Hhi Hk.
     rewrite eval_sarms_SACons. start_case Hat.
     change (sarms_patterns (SACons pt ss arms)) with (pt :: sarms_patterns arms) in Hk. cbn [first_match] in Hk.
-    cbn [sarm_addrs].
+    cbn [sarm_addrs sarm_sizes] in *.
     destruct (match pt with PDefault => Some true | PVals ps => any_match p v ps end) as [[|]|]; [| |exact I].
-    - inversion Hk; subst k. cbn [nth].
+    - inversion Hk; subst k. cbn [nth] in *.
       destruct (arm_env G en v pt) as [en'|] eqn:Ea; [|exact I].
       destruct (arm_head_sim pt lo hi en sg pc0 w v en' Hat0 Hlo ltac:(lia) Ea) as [Hh [b Hb]]. subst en'.
       eapply sim_out_trans; [exact Hh|]. unfold st.
@@ -992,7 +1070,7 @@ Section Sim.
       destruct (eval_stmts_tail _ _ _ _ _ E1) as [b' Hb']; [discriminate|]. cbn [tl] in Hb'. subst en1. unfold st.
       vstep. vjump. vdone.
     - destruct (first_match (sarms_patterns arms) v) as [[k'|]|] eqn:Ef; cbn [option_map] in Hk; try discriminate.
-      inversion Hk; subst k. cbn [nth].
+      inversion Hk; subst k. cbn [nth] in *.
       eapply (IHarms lo hi en sg); eauto; try lia.
   Qed.
 
@@ -1006,7 +1084,8 @@ Section Sim.
     rewrite len_d_patterns in Hp. specialize (Hp ltac:(lia)).
     destruct (first_match pats v) as [[k|]|] eqn:Ef.
     - eapply sim_out_trans; [exact Hp|].
-      eapply sim_out_fin; [|eapply (IHarms lo hi en sg base_pc (base_pc + sz_sarms arms) v w1 k); eauto; try lia].
+      destruct (sarm_bounds arms base_pc k (first_match_lt _ _ _ Ef)) as [Hb1 Hb2].
+      eapply sim_out_fin; [|eapply (IHarms lo hi en sg base_pc (base_pc + sz_sarms arms) v w1 k); eauto; try (subst base_pc; lia)].
       + intros r w'. unfold st. f_equal. subst base_pc. lia.
       + rewrite len_d_patterns in Hat. exact Hat.
     - assert (Hnone : forall arms', first_match (sarms_patterns arms') v = Some None -> eval_sarms en w1 v arms' = OWrong).
@@ -1232,6 +1311,211 @@ Section Sim.
     vstep.
     eapply sim_bind; [eapply (IHfs lo hi en sg (pc + 1) w name def []); eauto; lia|]. intros flds w1 _.
     cbn [sim_out]. apply mruno_done'. unfold st. f_equal. lia.
+  Qed.
+
+  (** ** C23: the code of an untaken operand or branch is not visited
+
+      [Qx lo hi xlo xhi]: as [Qr lo hi], and moreover no state of this frame has its pc in
+      [xlo, xhi) - the code range of the operand / branch that is not taken. *)
+  Definition Qx (lo hi xlo xhi : N) (s : RS) : Prop :=
+    (List.length cs <= depth s + slack)%nat
+    /\ (depth s = List.length cs -> lo <= rs_pc s < hi /\ ~ (xlo <= rs_pc s < xhi)).
+
+  Lemma Qr_Qx a b lo hi xlo xhi s :
+    Qr a b s -> lo <= a -> b <= hi -> (b <= xlo \/ xhi <= a) -> Qx lo hi xlo xhi s.
+  Proof. intros [H1 H2] Ha Hb Hd. split; auto. intros E. specialize (H2 E). lia. Qed.
+
+  Ltac in_rangex := split; unfold depth; cbn [rs_call_state rs_pc]; [lia | intros _; lia].
+  Ltac xstep_push :=
+    cbn [app]; eapply (s_push dbg io m Hcm Hlen);
+    [lookup|cbn [Vm.exec app]; vm_unf_np; reflexivity|reflexivity|in_rangex|];
+    cbv beta iota delta [set_pc set_stack rs_stack rs_scope rs_pc rs_call_state rs_ctx rs_io rs_query_iters].
+  Ltac xstep_go :=
+    cbn [app]; eapply (s_go dbg io m Hlen);
+    [lookup|cbn [Vm.exec app]; vm_unf; reflexivity|reflexivity|in_rangex|];
+    cbv beta iota delta [set_pc set_stack rs_stack rs_scope rs_pc rs_call_state rs_ctx rs_io rs_query_iters].
+  Ltac xstep_jump :=
+    cbn [app]; eapply (s_jump dbg io m Hlen);
+    [lookup|cbn [Vm.exec app]; vm_unf; reflexivity|in_rangex|].
+
+  (** the evaluated operand, run inside its own code range *)
+  Lemma operand_run a (IHa : P_expr a) en sg pc w v w1 lo hi xlo xhi :
+    at_pc m pc (d_expr pc a) -> eval_expr en w a = OVal v w1 ->
+    lo <= pc -> pc + sz_expr a <= hi -> (pc + sz_expr a <= xlo \/ xhi <= pc) ->
+    mruno (Qx lo hi xlo xhi) (st en sg pc w) (MTo (st en (v :: sg) (pc + sz_expr a) w1)).
+  Proof.
+    intros Hat He Hlo Hhi Hd.
+    pose proof (IHa pc (pc + sz_expr a) en sg pc w Hat ltac:(lia) ltac:(lia)) as H. rewrite He in H. cbn [sim_out] in H.
+    eapply mruno_weaken; [|exact H]. intros x Hx. eapply Qr_Qx; eauto; lia.
+  Qed.
+
+  (** [a && b] with [a] false: no pc of [b]'s code is visited, and the result is [false] *)
+  Theorem and_untaken a b : P_expr a -> forall en sg pc w w1,
+    at_pc m pc (d_expr pc (EAnd a b)) -> eval_expr en w a = OVal (V_Bool false) w1 ->
+    let mid := pc + sz_expr a + 3 in
+    mruno (Qx pc (pc + sz_expr (EAnd a b)) mid (mid + sz_expr b)) (st en sg pc w)
+          (MTo (st en (V_Bool false :: sg) (pc + sz_expr (EAnd a b)) w1)).
+  Proof.
+    intros IHa en sg pc w w1 Hat He mid. subst mid. start_case Hat.
+    eapply mruno_trans; [eapply (operand_run a IHa); eauto; lia|]. unfold st.
+    xstep_go. xstep_push. xstep_jump. apply mruno_done'. f_equal. lia.
+  Qed.
+
+  (** [a || b] with [a] true *)
+  Theorem or_untaken a b : P_expr a -> forall en sg pc w w1,
+    at_pc m pc (d_expr pc (EOr a b)) -> eval_expr en w a = OVal (V_Bool true) w1 ->
+    let pb := pc + sz_expr a + 1 in
+    mruno (Qx pc (pc + sz_expr (EOr a b)) pb (pb + sz_expr b)) (st en sg pc w)
+          (MTo (st en (V_Bool true :: sg) (pc + sz_expr (EOr a b)) w1)).
+  Proof.
+    intros IHa en sg pc w w1 Hat He pb. subst pb. start_case Hat.
+    eapply mruno_trans; [eapply (operand_run a IHa); eauto; lia|]. unfold st.
+    xstep_jump. xstep_push. apply mruno_done'. f_equal. lia.
+  Qed.
+
+  (** [a or b] with [a] some value *)
+  Theorem coalesce_untaken a b : P_expr a -> forall en sg pc w w1 x,
+    at_pc m pc (d_expr pc (ECoalesce a b)) -> eval_expr en w a = OVal (V_Option (Some x)) w1 ->
+    let pb := pc + sz_expr a + 4 in
+    mruno (Qx pc (pc + sz_expr (ECoalesce a b)) pb (pb + sz_expr b)) (st en sg pc w)
+          (MTo (st en (x :: sg) (pc + sz_expr (ECoalesce a b)) w1)).
+  Proof.
+    intros IHa en sg pc w w1 x Hat He pb. subst pb. start_case Hat.
+    eapply mruno_trans; [eapply (operand_run a IHa); eauto; lia|]. unfold st.
+    xstep_push. xstep_push. xstep_jump. xstep_push. apply mruno_done'. f_equal. lia.
+  Qed.
+
+  Lemma sim_out_weaken {A} (Q Q' : RS -> Prop) s (o : outcome St A) fin :
+    (forall x, Q x -> Q' x) -> sim_out Q s o fin -> sim_out Q' s o fin.
+  Proof.
+    intros HQ. destruct o; cbn; auto.
+    - apply mruno_weaken; auto.
+    - intros H Ha Hb Hc. destruct (H Ha Hb Hc) as (r & Hr & Hm). exists r. split; auto. eapply mruno_weaken; eauto.
+    - intros (s' & Hm & Hi). exists s'. split; auto. eapply mruno_weaken; eauto.
+    - intros (s' & Hm & Hi). exists s'. split; auto. eapply mruno_weaken; eauto.
+  Qed.
+
+  (** [if c { t } else { f }]: the branch that is not selected is not visited, whatever the
+      selected one does *)
+  Theorem if_true_untaken c t f : P_expr c -> P_expr t -> forall en sg pc w w1,
+    at_pc m pc (d_expr pc (EIf c t f)) -> eval_expr en w c = OVal (V_Bool true) w1 ->
+    let pf := pc + sz_expr c + 1 in
+    sim_out (Qx pc (pc + sz_expr (EIf c t f)) pf (pf + sz_expr f)) (st en sg pc w) (eval_expr en w1 t)
+            (fun v w' => st en (v :: sg) (pc + sz_expr (EIf c t f)) w').
+  Proof.
+    intros IHc IHt en sg pc w w1 Hat He pf. subst pf. start_case Hat.
+    eapply sim_out_trans; [eapply (operand_run c IHc); eauto; lia|]. unfold st.
+    eapply sim_lift; [intros o Hk; xstep_jump; exact Hk|].
+    eapply sim_out_weaken; [|eapply sim_out_fin; [|eapply (IHt (pc + sz_expr c + 1 + sz_expr f + 1) (pc + (sz_expr c + 1 + sz_expr f + 1 + sz_expr t)) en sg); eauto; lia]].
+    - intros x Hx. eapply Qr_Qx; eauto; lia.
+    - intros v w'. unfold st. f_equal. lia.
+  Qed.
+  Theorem if_false_untaken c t f : P_expr c -> P_expr f -> forall en sg pc w w1,
+    at_pc m pc (d_expr pc (EIf c t f)) -> eval_expr en w c = OVal (V_Bool false) w1 ->
+    let pt := pc + sz_expr c + 1 + sz_expr f + 1 in
+    sim_out (Qx pc (pc + sz_expr (EIf c t f)) pt (pt + sz_expr t)) (st en sg pc w) (eval_expr en w1 f)
+            (fun v w' => st en (v :: sg) (pc + sz_expr (EIf c t f)) w').
+  Proof.
+    intros IHc IHf en sg pc w w1 Hat He pt. subst pt. start_case Hat.
+    eapply sim_out_trans; [eapply (operand_run c IHc); eauto; lia|]. unfold st.
+    eapply sim_lift; [intros o Hk; xstep_go; exact Hk|].
+    eapply sim_post.
+    - eapply sim_out_weaken; [|eapply (IHf (pc + sz_expr c + 1) (pc + sz_expr c + 1 + sz_expr f) en sg); eauto; lia].
+      intros x Hx. eapply Qr_Qx; eauto; lia.
+    - intros v w2 _. unfold st. cbn [sim_out]. xstep_jump. apply mruno_done'. f_equal. lia.
+  Qed.
+
+  (** [match]: no arm other than the selected one is visited *)
+  Theorem match_arm_untaken e arms : P_expr e -> P_earms arms -> forall en sg pc w v w1 k j,
+    at_pc m pc (d_expr pc (EMatch e arms)) -> eval_expr en w e = OVal v w1 ->
+    first_match (earms_patterns arms) v = Some (Some k) ->
+    j <> k -> (j < List.length (earms_patterns arms))%nat ->
+    let base_pc := pc + sz_expr e + len (d_patterns p (earms_patterns arms) []) in
+    let xlo := nth j (earm_addrs p is_debug arms base_pc) 0 in
+    sim_out (Qx pc (pc + sz_expr (EMatch e arms)) xlo (xlo + nth j (earm_sizes arms) 0)) (st en sg pc w)
+            (eval_earms en w1 v arms) (fun r w' => st en (r :: sg) (pc + sz_expr (EMatch e arms)) w').
+  Proof.
+    intros IHe IHarms en sg pc w v w1 k j Hat He Hf Hjk Hj base_pc xlo. subst xlo. start_case Hat.
+    set (pats := earms_patterns arms) in *. fold base_pc in Hat.
+    pose proof (first_match_lt _ _ _ Hf) as Hk.
+    destruct (earm_bounds arms base_pc k Hk) as [Hk1 Hk2]. destruct (earm_bounds arms base_pc j Hj) as [Hj1 Hj2].
+    pose proof (earm_disjoint arms base_pc j k Hjk Hj Hk) as Hd.
+    eapply sim_out_trans; [eapply (operand_run e IHe); eauto; subst base_pc; lia|].
+    pose proof (patterns_sim pats (pc + sz_expr e) base_pc en sg (pc + sz_expr e) w1 v (earm_addrs p is_debug arms base_pc)
+                             Hat1 ltac:(lia)) as Hp.
+    rewrite len_d_patterns in Hp. specialize (Hp ltac:(subst base_pc; lia)). rewrite Hf in Hp.
+    eapply sim_out_trans; [eapply mruno_weaken; [|exact Hp]; intros x Hx; eapply Qr_Qx; eauto; subst base_pc; lia|].
+    eapply sim_out_weaken; [|eapply sim_out_fin; [|eapply (IHarms (nth k (earm_addrs p is_debug arms base_pc) 0)
+        (nth k (earm_addrs p is_debug arms base_pc) 0 + nth k (earm_sizes arms) 0) en sg base_pc (base_pc + sz_earms arms) v w1 k); eauto; try lia]].
+    - intros x Hx. eapply Qr_Qx; eauto; subst base_pc; lia.
+    - intros r w'. unfold st. f_equal. subst base_pc. lia.
+    - rewrite len_d_patterns in Hat. exact Hat.
+  Qed.
+
+  Theorem match_stmt_arm_untaken e arms : P_expr e -> P_sarms arms -> forall en sg pc w v w1 k j,
+    at_pc m pc (d_stmt pc (SMatch e arms)) -> eval_expr en w e = OVal v w1 ->
+    first_match (sarms_patterns arms) v = Some (Some k) ->
+    j <> k -> (j < List.length (sarms_patterns arms))%nat ->
+    let base_pc := pc + sz_expr e + len (d_patterns p (sarms_patterns arms) []) in
+    let xlo := nth j (sarm_addrs p is_debug arms base_pc) 0 in
+    sim_out (Qx pc (pc + sz_stmt (SMatch e arms)) xlo (xlo + nth j (sarm_sizes arms) 0)) (st en sg pc w)
+            (eval_sarms en w1 v arms) (fun en' w' => st en' sg (pc + sz_stmt (SMatch e arms)) w').
+  Proof.
+    intros IHe IHarms en sg pc w v w1 k j Hat He Hf Hjk Hj base_pc xlo. subst xlo. start_case Hat.
+    set (pats := sarms_patterns arms) in *. fold base_pc in Hat.
+    pose proof (first_match_lt _ _ _ Hf) as Hk.
+    destruct (sarm_bounds arms base_pc k Hk) as [Hk1 Hk2]. destruct (sarm_bounds arms base_pc j Hj) as [Hj1 Hj2].
+    pose proof (sarm_disjoint arms base_pc j k Hjk Hj Hk) as Hd.
+    eapply sim_out_trans; [eapply (operand_run e IHe); eauto; subst base_pc; lia|].
+    pose proof (patterns_sim pats (pc + sz_expr e) base_pc en sg (pc + sz_expr e) w1 v (sarm_addrs p is_debug arms base_pc)
+                             Hat1 ltac:(lia)) as Hp.
+    rewrite len_d_patterns in Hp. specialize (Hp ltac:(subst base_pc; lia)). rewrite Hf in Hp.
+    eapply sim_out_trans; [eapply mruno_weaken; [|exact Hp]; intros x Hx; eapply Qr_Qx; eauto; subst base_pc; lia|].
+    eapply sim_out_weaken; [|eapply sim_out_fin; [|eapply (IHarms (nth k (sarm_addrs p is_debug arms base_pc) 0)
+        (nth k (sarm_addrs p is_debug arms base_pc) 0 + nth k (sarm_sizes arms) 0) en sg base_pc (base_pc + sz_sarms arms) v w1 k); eauto; try lia]].
+    - intros x Hx. eapply Qr_Qx; eauto; subst base_pc; lia.
+    - intros r w'. unfold st. f_equal. subst base_pc. lia.
+    - rewrite len_d_patterns in Hat. exact Hat.
+  Qed.
+
+  (** [if c { ss } else ...] as a statement: when [c] holds nothing after the block is visited;
+      when it does not, the block is not *)
+  Theorem if_stmt_true_untaken c ss bs : P_expr c -> P_stmts ss -> forall en sg pc endl w w1,
+    at_pc m pc (d_branches pc endl (BCons c ss bs)) -> eval_expr en w c = OVal (V_Bool true) w1 ->
+    let next := pc + sz_expr c + 2 + 1 + sz_stmts ss + 1 + 1 in
+    sim_out (Qx pc (pc + sz_branches (BCons c ss bs)) next (next + sz_branches bs)) (st en sg pc w)
+            (eval_stmts (env_push en) w1 ss) (fun _ w' => st en sg endl w').
+  Proof.
+    intros IHc IHss en sg pc endl w w1 Hat He next. subst next. start_case Hat.
+    eapply sim_out_trans; [eapply (operand_run c IHc); eauto; lia|]. unfold st.
+    eapply sim_lift; [intros o Hk; xstep_go; xstep_go; xstep_go; exact Hk|].
+    eapply sim_post.
+    - eapply sim_out_weaken; [|eapply (P_stmts_at _ IHss (pc + sz_expr c + 2 + 1) (pc + sz_expr c + 2 + 1 + sz_stmts ss) (env_push en) sg);
+                                 [eassumption|lia|reflexivity|lia|lia|fin_eq]].
+      intros x Hx. eapply Qr_Qx; eauto; lia.
+    - intros en1 w2 E2.
+      assert (Hen : exists b, en1 = b :: en).
+      { destruct (eval_stmts_tail _ _ _ _ _ E2) as [b Hb]; [discriminate|]. cbn [tl env_push] in Hb. eauto. }
+      destruct Hen as [b ->]. unfold st. cbn [sim_out].
+      xstep_go. xstep_jump. apply mruno_done'. reflexivity.
+  Qed.
+  Theorem if_stmt_false_untaken c ss bs : P_expr c -> P_branches bs -> forall en sg pc endl w w1,
+    at_pc m pc (d_branches pc endl (BCons c ss bs)) -> eval_expr en w c = OVal (V_Bool false) w1 ->
+    let pb := pc + sz_expr c + 2 in
+    sim_out (Qx pc (pc + sz_branches (BCons c ss bs)) pb (pb + 1 + sz_stmts ss + 1 + 1)) (st en sg pc w)
+            (eval_branches en w1 bs)
+            (fun r w' => match r with
+                         | Some _ => st en sg endl w'
+                         | None => st en sg (pc + sz_branches (BCons c ss bs)) w'
+                         end).
+  Proof.
+    intros IHc IHbs en sg pc endl w w1 Hat He pb. subst pb. start_case Hat.
+    eapply sim_out_trans; [eapply (operand_run c IHc); eauto; lia|]. unfold st.
+    eapply sim_lift; [intros o Hk; xstep_go; xstep_jump; exact Hk|].
+    eapply sim_out_weaken; [|eapply sim_out_fin; [|eapply (IHbs (pc + sz_expr c + 2 + 1 + sz_stmts ss + 1 + 1)
+       (pc + (sz_expr c + 2 + 1 + sz_stmts ss + 1 + 1 + sz_branches bs)) en sg); eauto; lia]].
+    - intros x Hx. eapply Qr_Qx; eauto; lia.
+    - intros [e'|] w'; unfold st; f_equal; lia.
   Qed.
 
   (** ** All of the fragment *)
